@@ -791,12 +791,16 @@ theorem gc_delete_aux (hlen : ∀ x, (H x).length = 32) (hPS : ∀ x, P x → St
     | nil => left; simp [delete, PT.delete]
     | empty => left; simp [delete, PT.delete]
     | value h vv vw d hcl =>
+      have hkn : key = [] := by
+        simp only [Uniform] at hu
+        exact List.eq_nil_of_length_eq_zero (hk.trans hu)
+      subst hkn
       right
       refine ⟨rfl, rfl, by simp [delete], trivial, by simp [delete, WN.isNil], .none, by simp [PT.delete], Rep.nil, ?_, ?_⟩
       · simp [delete, WN.weight]
       · have := hashField_cases (Rep.value h vv vw d hcl) (by simp)
         exact Gc.drop hlen (fun z hz => by
-          simp only [delete, List.mem_singleton] at hz
+          simp only [delete, ne_eq, not_true_eq_false, if_false, List.mem_singleton] at hz
           subst hz
           exact this)
     | ref t hn hst =>
